@@ -1,4 +1,4 @@
-CONSTANTS MaxTrees = 4 SimDepth = 4 Deep = TRUE
+CONSTANTS MaxTrees = 4 SimDepth = 4 Deep = TRUE CancelFirst = 0
 INIT Init
 NEXT Next
 INVARIANTS OwnOnly
